@@ -482,6 +482,7 @@ func (cl *Cluster) autoLocked(nc *NodeConn) {
 		pc := nc.Pending[0]
 		nc.Pending = nc.Pending[1:]
 		if pc.Name == "asking" {
+			cl.log.Add(Event{Ev: "answerauto", N: nc.node.Name, Conn: nc.Id, K: "asking"})
 			nc.c.Write([]byte("+OK\r\n"))
 			continue
 		}
